@@ -53,7 +53,14 @@ func (r *Recorder) write(m M) {
 }
 
 // Reset starts a new trace. scenario must be enough to re-run exactly this trace.
+// ResetHooks run at the start of every trace (worlds register their per-trace hygiene here, e.g. a cold
+// state cache: see world.ColdCache).
+var ResetHooks []func()
+
 func (r *Recorder) Reset(scenario M, fields M) {
+	for _, h := range ResetHooks {
+		h()
+	}
 	r.closeTrace()
 	r.TraceID++
 	m := M{"ev": "Reset", "trace": r.TraceID}
